@@ -112,6 +112,7 @@ fn main() {
     let announce = arg(&args, "--announce").and_then(|p| std::fs::OpenOptions::new().create(true).write(true).truncate(true).open(p).ok());
 
     conn::install_panic_hook();
+    sim::JUDGE_INTERIM_VERSION.store(prop == "C13", std::sync::atomic::Ordering::Relaxed);
 
     let mut ctx = Ctx {
         prop: prop.clone(),
